@@ -526,6 +526,24 @@ func (cx *Ctx) keyPrefix(v ssa.Value, fr *frame, depth int, out map[string]bool)
 			return
 		}
 		out["?call:"+pkg+"."+name] = true
+	case *ssa.MakeSlice:
+		// key := make([]byte, n); copy(key, src): the prefix of what is copied in
+		n := 0
+		if x.Referrers() != nil {
+			for _, r := range *x.Referrers() {
+				c, ok := r.(*ssa.Call)
+				if !ok {
+					continue
+				}
+				if b, isB := c.Common().Value.(*ssa.Builtin); isB && b.Name() == "copy" && len(c.Common().Args) == 2 && c.Common().Args[0] == v {
+					cx.keyPrefix(c.Common().Args[1], fr, depth+1, out)
+					n++
+				}
+			}
+		}
+		if n == 0 {
+			out["?*ssa.MakeSlice"] = true
+		}
 	default:
 		out[fmt.Sprintf("?%T", v)] = true
 	}
